@@ -353,6 +353,52 @@ theorem atomic_if_renamed_real_explicit (old new : Registry) (ho : RealOK old) (
     loadFs realLoader c = .ok old ∨ loadFs realLoader c = .ok new :=
   atomic_if_renamed realLoader old new ho hn c h
 
+/-! #### Registries in any insertion order
+
+`sort_keys=True` writes every registry in key order, so the file of `r` is the file of its canonical
+representative `canonOf r` (the same Python dicts, `Persist.canonReg_perm`; `reboot` cleared), which
+is within `RealOK` whenever `r` is within C13's `RegOK` with printable integers. -/
+
+theorem realOK_canonOf (r : Registry) (h : RegOK r) (hi : regIntsOK r = true) : RealOK (canonOf r) :=
+  ⟨regOK_canonOf r h, regIntsOK_canonOf r hi, canon_canonOf r h⟩
+
+theorem realDump_canonOf (r : Registry) (h : RegOK r) : realDump (canonOf r) = realDump r := saveBytes_canonOf r h
+
+/-- **Crash classes for any two registries of C13's domain** (no order assumed): a crash during
+today's save leaves a file that loads to the old registry, the new registry (each as the dict-equal
+canonical representative), the empty registry, or raises `PersistenceReadError`. -/
+theorem crash_load_classes_real_any (old new : Registry) (ho : RegOK old) (hio : regIntsOK old = true)
+    (hn : RegOK new) (hin : regIntsOK new = true) (c : Fs)
+    (h : c ∈ crashStates (Fs.init (realDump old)) (saveOps (realDump new))) :
+    loadFs realLoader c = .ok (canonOf old) ∨ loadFs realLoader c = .ok (canonOf new) ∨
+      (c.live = some [] ∧ loadFs realLoader c = .ok []) ∨
+      (∃ p, c.live = some p ∧ p <+: realDump new ∧ p ≠ [] ∧ p ≠ realDump new ∧ loadFs realLoader c = .readError) := by
+  rw [← realDump_canonOf old ho] at h
+  rw [← realDump_canonOf new hn] at h ⊢
+  exact crash_load_classes_real _ _ (realOK_canonOf old ho hio) (realOK_canonOf new hn hin) c h
+
+/-- **The atomic sequence for any two registries of C13's domain**: every crash state loads to the
+old or to the new registry. -/
+theorem atomic_if_renamed_real_any (old new : Registry) (ho : RegOK old) (hio : regIntsOK old = true)
+    (hn : RegOK new) (hin : regIntsOK new = true) (c : Fs)
+    (h : c ∈ crashStates (Fs.init (realDump old)) (saveOpsAtomic (realDump new))) :
+    loadFs realLoader c = .ok (canonOf old) ∨ loadFs realLoader c = .ok (canonOf new) := by
+  rw [← realDump_canonOf old ho, ← realDump_canonOf new hn] at h
+  exact atomic_if_renamed realLoader _ _ (realOK_canonOf old ho hio) (realOK_canonOf new hn hin) c h
+
+/-- A registry in insertion order different from key order at all three levels, with a `reboot`
+flag set: covered by the `_any` theorems, outside `RealOK`. -/
+def unsortedReg : Registry :=
+  [(9, { ntype := 17, pv := cs!"2.0", reboot := true,
+         children := [(5, ⟨5, 1, [], [(30, cs!"a"), (4, cs!"b"), (100, cs!"c")]⟩), (1, ⟨1, 2, [], []⟩)] }),
+   (2, { ntype := 17, pv := cs!"1.4", battery := 1 })]
+
+example : RegOK unsortedReg ∧ regIntsOK unsortedReg = true ∧ ¬ RealOK unsortedReg := by decide
+example : canonOf unsortedReg =
+    [(2, { ntype := 17, pv := cs!"1.4", battery := 1 }),
+     (9, { ntype := 17, pv := cs!"2.0",
+           children := [(1, ⟨1, 2, [], []⟩), (5, ⟨5, 1, [], [(4, cs!"b"), (30, cs!"a"), (100, cs!"c")]⟩)] })] := by decide
+
 /-- No crash state of a save is outside the modelled text fragment. -/
 theorem crash_states_modelled (old new : Registry) (ho : RealOK old) (hn : RealOK new) (c : Fs)
     (h : c ∈ crashStates (Fs.init (realDump old)) (saveOps (realDump new))) : loadFs realLoader c ≠ .other := by
